@@ -426,6 +426,10 @@ func (i *Interp) visitInstr(fr *frame, instr ssa.Instruction) continuation {
 		if l < 0 || c < l {
 			i.runtimePanic(fr, "makeslice: len out of range")
 		}
+		if c > 1<<44 {
+			// beyond what the Go runtime can ever allocate: it panics (len or cap out of range)
+			i.runtimePanic(fr, "makeslice: len out of range")
+		}
 		if c > 1<<24 {
 			i.unsupported("makeslice of %d elements", c)
 		}
